@@ -604,7 +604,7 @@ func runC07(c *Ctx) error {
 			return err
 		}
 	}
-	n := c.N(36, 300)
+	n := c.N(30, 300)
 	if c.Tier == "search" {
 		n = 70
 	}
